@@ -397,6 +397,8 @@ pub fn name_alphabet() -> Vec<&'static str> {
         // registered JWT / JWS / SD-JWT member names used as ordinary claim names (top-level aud, non-string sub and
         // non-numeric nbf are outside the claim domain; a numeric nbf in the past is inside it)
         "jti", "typ", "alg", "kid", "vct", "nonce", "sd_hash", "kb_jwt", "disclosures", "payload", "protected", "signature", "jwk", "nbf",
+        // a long name (the alphabet is &'static str: a literal of 300 characters)
+        "nnnnnnnnnnnnnnnnnnnnnnnnnnnnnnnnnnnnnnnnnnnnnnnnnnnnnnnnnnnnnnnnnnnnnnnnnnnnnnnnnnnnnnnnnnnnnnnnnnnnnnnnnnnnnnnnnnnnnnnnnnnnnnnnnnnnnnnnnnnnnnnnnnnnnnnnnnnnnnnnnnnnnnnnnnnnnnnnnnnnnnnnnnnnnnnnnnnnnnnnnnnnnnnnnnnnnnnnnnnnnnnnnnnnnnnnnnnnnnnnnnnnnnnnnnnnnnnnnnnnnnnnnnnnnnnnnnnnnnnnnnnnnnnnnnnnnnnnnnnnnnnnnnnnnnnn",
         // names that some API might treat as magic
         "*", "**", "?", "@", "#", "%", "+", "-", "_", "__proto__", "true", "false", "null", "0", "1", "[]", "{}", "all", "a ", " a", "a\u{a0}", "A",
     ]
